@@ -404,34 +404,76 @@ def strip_payload(words):
     return words[i + 1:]
 
 
-def op_weights(art):
-    """Per operation of a captured stream: (key, dims, values) of the weights Vela encoded for it
-    (its own tensor values after graph optimisation, zero point removed, OHWI, depth slice), or None."""
-    from ethosu.vela.high_level_command_stream import NpuStripe
-    from ethosu.vela.operation import Op
+class WeightCapture:
+    """Records the weight volumes Vela hands to the MLW encoder (`weight_compressor.encode_weights`, one call per
+    depth slice and core, OHWI, zero point already removed, transposed-convolution flip already applied), keyed by the
+    encoded tensor and its WeightKey. Nothing about the weights is recomputed by the harness."""
 
+    def __init__(self):
+        self.by_tensor = {}       # id(NpuWeightTensor) -> (tensor, {(core, depth): ndarray OHWI})
+        self._stack = None
+
+    def __enter__(self):
+        from ethosu.vela import weight_compressor as wc
+
+        self.wc = wc
+        self.orig_enc, self.orig_both = wc.encode_weights, wc.encode_weight_and_scale_tensor
+
+        def enc(accelerator, weights_volume, *a, **kw):
+            if self._stack is not None:
+                self._stack.append(np.array(weights_volume, dtype=np.int64))
+            return self.orig_enc(accelerator, weights_volume, *a, **kw)
+
+        def both(*a, **kw):
+            self._stack = []
+            try:
+                wt, st = self.orig_both(*a, **kw)
+            finally:
+                stack, self._stack = self._stack, None
+            if stack and wt is not None:
+                keys = list(wt.encoded_ranges.keys())
+                if len(keys) == len(stack):
+                    self.by_tensor[id(wt)] = (wt, {(int(k.core), int(k.depth)): v for k, v in zip(keys, stack)})
+            return wt, st
+
+        wc.encode_weights, wc.encode_weight_and_scale_tensor = enc, both
+        return self
+
+    def __exit__(self, *exc):
+        self.wc.encode_weights, self.wc.encode_weight_and_scale_tensor = self.orig_enc, self.orig_both
+        return False
+
+
+def op_weights(art, capture):
+    """Per operation of a captured stream: (key, dims, values) of the weights Vela encoded for it — the volumes it
+    passed to the encoder for the operation's depth slice, the cores interleaved back into OHWI — or None."""
+    from ethosu.vela.high_level_command_stream import NpuStripe
+
+    ncores = int(art.arch.ncores)
     out = []
     for npu_op in art.npu_ops:
         cmd = art.op_to_cmd[npu_op]
         if not isinstance(cmd, NpuStripe) or cmd.weight_tensor is None:
             out.append(None)
             continue
-        op = cmd.ps.primary_op
-        wt = op.weights
-        vals = np.asarray(wt.values).astype(np.int64)
-        zp = wt.quantization.zero_point
-        w = vals - (np.asarray(zp).astype(np.int64) if not isinstance(zp, (int, float)) else int(zp))
-        if w.ndim == 2:
-            w = w.reshape((1, 1) + w.shape)
-        if op.type == Op.Conv2DBackpropInputSwitchedBias:
-            w = np.flip(w, axis=(0, 1))
+        wt = cmd.weight_tensor
+        src = wt.src_tensor if wt.src_tensor is not None else wt
+        cap = capture.by_tensor.get(id(src))
+        if cap is None or cap[0] is not src:
+            raise NotSimulated("weights_not_captured")
         d0, d1 = int(cmd.weight_box.start_coord[-1]), int(cmd.weight_box.end_coord[-1])
-        ohwi = np.transpose(w[:, :, :, d0:d1], (3, 0, 1, 2))
-        out.append(((id(wt), d0, d1), ohwi.shape, ohwi.reshape(-1)))
+        vols = [cap[1][(core, d0)] for core in range(ncores) if (core, d0) in cap[1]]
+        if not vols:
+            raise NotSimulated("weights_not_captured")
+        n = sum(v.shape[0] for v in vols)
+        ohwi = np.zeros((n,) + vols[0].shape[1:], dtype=np.int64)
+        for core, v in enumerate(vols):
+            ohwi[core::ncores] = v
+        out.append(((id(src), d0, d1), ohwi.shape, ohwi.reshape(-1)))
     return out
 
 
-def build_request(src_bytes, res, inputs_hex, arch=None):
+def build_request(src_bytes, res, inputs_hex, capture):
     """One `semcheck` request line for a compiled network. Raises NotSimulated."""
     src_model = fbwalk.parse(src_bytes)
     out_model = fbwalk.parse(res.out_model)
@@ -461,7 +503,7 @@ def build_request(src_bytes, res, inputs_hex, arch=None):
             arts.remove(art)
             lutbase, shram = int(art.arch.shram_lut_address), int(art.arch.shram_size_bytes)
             widx = []
-            for wv in op_weights(art):
+            for wv in op_weights(art, capture):
                 if wv is None:
                     widx.append(-1)
                     continue
